@@ -145,6 +145,61 @@ theorem plane_exact (pos : List (ℝ × ℝ)) (α β γ : ℝ) (hne : pos ≠ []
       exact hne0 (by rw [ha0, hb0, hc0])
     exact ⟨hc, fitPlanePCA_exact pos z a b c hzlen hc hnull⟩
 
+/-- on the raster `meshgrid(arange(nx), arange(ny))` that `fit_origin_background` uses when no
+probe positions are given, the span hypothesis holds as soon as `nx, ny ≥ 2` -/
+theorem raster_spans (nx ny : Nat) (hx : 2 ≤ nx) (hy : 2 ≤ ny) :
+    ∃ p ∈ (rasterPositions nx ny : List (ℝ × ℝ)), ∃ q ∈ (rasterPositions nx ny : List (ℝ × ℝ)),
+      (p.1 - meanX (rasterPositions nx ny)) * (q.2 - meanY (rasterPositions nx ny))
+        - (q.1 - meanX (rasterPositions nx ny)) * (p.2 - meanY (rasterPositions nx ny)) ≠ 0 := by
+  have hmem : ∀ a b : Nat, a < nx → b < ny → (((a : ℝ), (b : ℝ)) : ℝ × ℝ) ∈ (rasterPositions nx ny : List (ℝ × ℝ)) := by
+    intro a b ha hb
+    unfold rasterPositions
+    rw [List.mem_flatMap]
+    refine ⟨a, List.mem_range.mpr ha, ?_⟩
+    rw [List.mem_map]
+    exact ⟨b, List.mem_range.mpr hb, by simp [NumReal.ofNat_eq]⟩
+  have hnonneg : ∀ v ∈ (rasterPositions nx ny : List (ℝ × ℝ)).map (·.1), (0 : ℝ) ≤ v := by
+    intro v hv
+    obtain ⟨p, hp, rfl⟩ := List.mem_map.mp hv
+    unfold rasterPositions at hp
+    obtain ⟨a, _, hp⟩ := List.mem_flatMap.mp hp
+    obtain ⟨b, _, rfl⟩ := List.mem_map.mp hp
+    simp [NumReal.ofNat_eq]
+  have h1 : (1 : ℝ) ≤ ((rasterPositions nx ny : List (ℝ × ℝ)).map (·.1)).sum := by
+    apply List.single_le_sum hnonneg
+    exact List.mem_map.mpr ⟨((1 : ℕ), (0 : ℕ)), by simpa using hmem 1 0 (by omega) (by omega), by simp⟩
+  have hlen : (0 : ℝ) < ((rasterPositions nx ny : List (ℝ × ℝ)).length : ℝ) := by
+    have : (rasterPositions nx ny : List (ℝ × ℝ)) ≠ [] := List.ne_nil_of_mem (hmem 0 0 (by omega) (by omega))
+    exact_mod_cast List.length_pos_iff.mpr this
+  have hmx : 0 < meanX (rasterPositions nx ny) := by
+    unfold meanX
+    exact div_pos (by linarith) hlen
+  refine ⟨((0 : ℕ), (0 : ℕ)), by simpa using hmem 0 0 (by omega) (by omega),
+    ((0 : ℕ), (1 : ℕ)), by simpa using hmem 0 1 (by omega) (by omega), ?_⟩
+  have : ((((0 : ℕ) : ℝ)) - meanX (rasterPositions nx ny)) * ((((1 : ℕ) : ℝ)) - meanY (rasterPositions nx ny))
+      - ((((0 : ℕ) : ℝ)) - meanX (rasterPositions nx ny)) * ((((0 : ℕ) : ℝ)) - meanY (rasterPositions nx ny))
+      = - meanX (rasterPositions nx ny) := by push_cast; ring
+  simp only at this ⊢
+  rw [this]
+  exact (neg_neg_iff_pos.mpr hmx).ne
+
+/-- **Plane fit on the scan raster, unconditionally**: for every scan of at least 2 × 2 positions
+and every plane `α x + β y + γ`, every eigenvector of the zero eigenvalue of the scatter form has a
+non-zero third component and `fit_origin_background(fit_method="plane")` built from it returns
+the plane at every scan position. -/
+theorem plane_exact_raster (nx ny : Nat) (hx : 2 ≤ nx) (hy : 2 ≤ ny) (α β γ a b c : ℝ)
+    (hne0 : (a, b, c) ≠ (0, 0, 0)) :
+    let pos : List (ℝ × ℝ) := rasterPositions nx ny
+    let z := pos.map (fun p => α * p.1 + β * p.2 + γ)
+    ((pos.zip z).map (fun pz => offPlane pos z a b c pz ^ 2)).sum = 0 →
+      c ≠ 0 ∧ fitPlanePCA pos z (a, b, c) = z := by
+  intro pos z hq
+  have hspan := raster_spans nx ny hx hy
+  have hne : pos ≠ [] := by
+    obtain ⟨p, hp, _⟩ := hspan
+    exact List.ne_nil_of_mem hp
+  exact (plane_exact pos α β γ hne hspan).2 a b c hne0 hq
+
 /-- the hypotheses of `plane_exact` are satisfiable: a 2 × 2 raster is not collinear -/
 example : ∃ p ∈ [((0 : ℝ), (0 : ℝ)), (0, 1), (1, 0), (1, 1)], ∃ q ∈ [((0 : ℝ), (0 : ℝ)), (0, 1), (1, 0), (1, 1)],
     (p.1 - meanX [((0 : ℝ), (0 : ℝ)), (0, 1), (1, 0), (1, 1)]) * (q.2 - meanY [((0 : ℝ), (0 : ℝ)), (0, 1), (1, 0), (1, 1)])
